@@ -85,9 +85,15 @@ def main():
                 if not s["data"].get("omitted"):
                     data = pyify(json.loads(aj_to_text(s["data"]["v"]))) if s["data"]["valid"] else float("nan")
                     args.append(data)
-                if s["ser"] == "custom": kwargs["serializer"] = custom_ser
-                if s["deser"] == "custom": kwargs["deserializer"] = custom_deser
-                desc = "apply(%s%s)" % (", ".join(json.dumps(a) if not (isinstance(a, float) and a != a) else "nan" for a in args), "".join(", %s=<custom>" % k for k in kwargs))
+                # the optional arguments by position where the call allows it (value, data, serializer, deserializer),
+                # by keyword otherwise: both spellings are the documented interface
+                if s["ser"] == "custom" and len(args) == 2:
+                    args.append(custom_ser)
+                    if s["deser"] == "custom": args.append(custom_deser)
+                else:
+                    if s["ser"] == "custom": kwargs["serializer"] = custom_ser
+                    if s["deser"] == "custom": kwargs["deserializer"] = custom_deser
+                desc = "apply(%s%s)" % (", ".join(("<custom>" if callable(a) else json.dumps(a)) if not (isinstance(a, float) and a != a) else "nan" for a in args), "".join(", %s=<custom>" % k for k in kwargs))
                 got = jsonlogic_rs.apply(*args, **kwargs)
             else:
                 vt = aj_to_text(s["value"]["v"]) if s["value"]["valid"] else BAD[s["value"]["cls"]]
